@@ -245,9 +245,15 @@ def run_playback(scratch, hid, test_src, release=False):
     reproduced = False
     if ran and int(ran.group(3)) > 0 and all(n in out for n in names[:1]):
         reproduced = True
+    # a replayed failure may abort the test process instead of failing the test (std's
+    # unchecked-precondition checks and panics inside drop glue do not unwind): the playback test
+    # started and the process died on a signal
+    crashed = re.search(r"running \d+ tests?", out) and re.search(r"\(signal: \d+, SIG(ABRT|SEGV|BUS|ILL)", out)
+    if crashed and all(n in src + body for n in names[:1]):
+        reproduced = True
     # restore
     open(path, "w").write(src)
-    return reproduced, out, bool(ran)
+    return reproduced, out, bool(ran) or bool(crashed)
 
 
 def save_replay(pid, hid, test_src, failed_desc, playback_out, reproduced):
